@@ -122,28 +122,114 @@ R11 crossing points lie on the segment's straight map line: every block of
     (the crossing loses its latitude, lat- and lon-side arrays differ in
     length).  A wrong sign / array / coordinate in either line equation, a guard
     on the wrong rows or the wrong array is reported with the sample values.
+R12 group independence: what is worked out for one group of segments inside a
+    loop (the grid lines crossed, their crossing coordinates) depends on that
+    group only.  In every function on the gridding path, no array that is
+    created once BEFORE a loop and used nowhere but inside it is altered in
+    place inside the loop by a read-modify-write (`op=`, `x[..] = f(x)`,
+    `.sort()`) through a basic-slice view that is retaken from a fixed
+    starting position at every iteration (`w = base[:n]; w *= -1`, or
+    `base[:n] *= -1` directly): the slice shares memory with the array, the
+    next iteration starts from what the previous ones left.  A copy
+    (`.copy()`, mask / index-array subscripts, arithmetic), an array created
+    per iteration, an accumulator that is read after the loop, a fill by
+    position (`out[..] = value`), a window that moves with the iteration, a
+    Python list are none of this.  Judged where it is written (also inside a
+    generator function), positive control embedded.
+R13 which grid lines: a segment that goes from cell s to cell e of an axis
+    (cell i lies between grid lines i and i + 1: index = searchsorted − 1)
+    crosses exactly the lines min(s, e) + 1 … max(s, e).  For every write,
+    inside a loop of the horizontal intersection, of `self.grid_<axis>[INDEX]`
+    into a per-axis array, the closed state value of INDEX (start cells,
+    offsets with their in-place steps read functionally, helpers / generators
+    opened) is computed exactly for sample segments (s, e) - the per-point
+    cell indices `[:-1]` / `[1:]` are s / e, the loop variable is e − s, row
+    selections leave the value alone, a maximum over all segments stands for
+    "large enough" - and must give those lines, each once, in any order (they
+    are sorted afterwards, R5).  Offsets 0 … n − 1 going up, a flipped sign
+    test, the end cell as base are reported with the sample.  This is the one
+    clause R6 cannot see when both axes share the code (a helper / generator
+    used for latitude and longitude alike is its own mirror image).
 
 Before the rules read them, the functions of the gridding module are rewritten
-in place by `split_tuple_locals` (a local bound once to a display and used by
+in place: `specialise_selector_calls` - a helper that is told by a CONSTANT
+argument what to do (`self._require_axis('time')`: the parameter is tested,
+selects from a display or names an attribute) is replaced at that call by its
+copy for that constant, tests on it evaluated - `open_generator_loops` - `for T in gen(args): BODY` over a generator
+function of the module of the shape `prefix; for v in it: before; yield value;
+after` becomes the one loop that is executed (`params = args; prefix; for v in
+it: before; T = value; BODY; after`, the generator's names renamed apart), so
+a loop whose state moved into a generator is read like the loop it was - and
+`split_tuple_locals` (a local bound once to a display and used by
 component only is taken apart into one local per component; a loop over such a
 display of locals is unrolled): the values follow a local that holds an array
-and is altered in place, not a component of a tuple that is.
+and is altered in place, not a component of a tuple that is.  Closed values
+are canonical also in that a constant selection from a display is the selected
+member (`{'altitude': self.grid_altitudes, 'time': self.grid_times}['time']`
+is `self.grid_times`: a guard helper that is told by a constant which axis it
+is about).
 """
 
 from __future__ import annotations
 
 import ast
+import os
 import re
 
 from ..algebra import AlgebraError, normal_form, poly_equal
 from ..astutil import (call_name, calls_in, const_value, eval_pred, kwarg, names_in, norm, single_def_value, stmt_of, stores_to,
                        walk_no_nested)
-from .c04 import (DIST_FN, HZ_FN, MUT, RES, SPLITS, Pending, SeqView, Undecided, Values, _ix, _mk, _ph, alts, module_calls, as_received, canon,
+from .c04 import canon as _canon04
+from .c04 import (DIST_FN, HZ_FN, MUT, RES, SPLITS, Pending, SeqView, Undecided, Values, _ix, _mk, _ph, alts, module_calls, as_received,
                   closed, describe_count, elem_form, grid_values, guard_verdict, hz_leaf, index_param, is_mask, is_mk, leaf_role,
                   lookup_verdict, mentions, parse_lookup, pervar_values, plain_value, pm, pm_any, ret_elts, rule_suffix, run_rules, same,
                   share_model, show, show_parts, strip_casts, tcopy)
 
 GRID = 'gridding/grid.py'
+
+
+class _FoldSelect(ast.NodeTransformer):
+    """a constant selection from a display is the selected member: `{'a': x, 'b': y}['a']` / `dict(a=x, b=y)['a']` is x
+    (a helper that is told by a constant which of the grid's axes it is about), `(x, y)[1]` is y.  Closed values are pure
+    expressions: the members that are not selected have no effect."""
+    def visit_Subscript(self, n):
+        self.generic_visit(n)
+        k, d = n.slice, n.value
+        if not (isinstance(k, ast.Constant) and isinstance(k.value, (str, int)) and not isinstance(k.value, bool)):
+            return n
+        if isinstance(d, ast.Dict) and d.keys and all(isinstance(x, ast.Constant) for x in d.keys):
+            hits = [v for kk, v in zip(d.keys, d.values) if type(kk.value) is type(k.value) and kk.value == k.value]
+            return hits[-1] if hits else n
+        if isinstance(d, ast.Call) and isinstance(d.func, ast.Name) and d.func.id == 'dict' and not d.args and d.keywords and \
+                all(x.arg is not None for x in d.keywords):
+            hits = [x.value for x in d.keywords if x.arg == k.value]
+            return hits[-1] if hits else n
+        if isinstance(d, (ast.Tuple, ast.List)) and isinstance(k.value, int) and not any(isinstance(x, ast.Starred) for x in d.elts) \
+                and -len(d.elts) <= k.value < len(d.elts):
+            return d.elts[k.value]
+        return n
+
+    def visit_Call(self, n):
+        self.generic_visit(n)
+        # {..}.get('a') / {..}.get('a', default) with constant keys
+        if isinstance(n.func, ast.Attribute) and n.func.attr == 'get' and isinstance(n.func.value, ast.Dict) and 1 <= len(n.args) <= 2 \
+                and not n.keywords and isinstance(n.args[0], ast.Constant) and n.func.value.keys and \
+                all(isinstance(x, ast.Constant) for x in n.func.value.keys):
+            k, d = n.args[0], n.func.value
+            hits = [v for kk, v in zip(d.keys, d.values) if type(kk.value) is type(k.value) and kk.value == k.value]
+            return hits[-1] if hits else (n.args[1] if len(n.args) == 2 else ast.Constant(None))
+        return n
+
+
+def canon(e):
+    """c04.canon + constant selections from displays folded (see _FoldSelect); an attribute of the receiver (`self.grid_times`)
+    is worded as itself, not as the local of a helper that happened to hold it (verdicts that read the wording of an axis
+    must not depend on `g = self.grid_times; ...; return g` vs `return self.grid_times`)"""
+    out = _FoldSelect().visit(_canon04(e))
+    for x in ast.walk(out):
+        if isinstance(x, ast.Attribute) and isinstance(x.value, ast.Name) and hasattr(x, '_nm'):
+            del x._nm
+    return out
 SHARE_FN = 'Gridder._cell_idxs_touched_by_trajectory_with_state_and_integrated_vars'
 AXES = ('lat', 'lon', 'altitude', 'time')
 
@@ -2605,6 +2691,858 @@ def unroll_name_loops(fn):
         _reparent(fn)
 
 
+class _ConstFold(ast.NodeTransformer):
+    """what is left to evaluate once a parameter has been replaced by the constant it is given: comparisons of constants,
+    `not` / and / or of constants, conditional expressions and `if` statements on a constant, f-strings of constants,
+    `getattr(x, 'name')`.  (Partial evaluation: nothing else is touched.)"""
+    @staticmethod
+    def _c(n):
+        return isinstance(n, ast.Constant)
+
+    def visit_Compare(self, n):
+        self.generic_visit(n)
+        if len(n.ops) != 1 or not self._c(n.left):
+            return n
+        a, op, r = n.left.value, n.ops[0], n.comparators[0]
+        if isinstance(op, (ast.In, ast.NotIn)) and isinstance(r, (ast.Tuple, ast.List, ast.Set)) and all(self._c(x) for x in r.elts):
+            hit = any(type(x.value) is type(a) and x.value == a for x in r.elts)
+            return ast.copy_location(ast.Constant(hit if isinstance(op, ast.In) else not hit), n)
+        if not self._c(r):
+            return n
+        b = r.value
+        same_ = type(a) is type(b) and a == b
+        if isinstance(op, (ast.Eq, ast.NotEq)):
+            return ast.copy_location(ast.Constant(same_ if isinstance(op, ast.Eq) else not same_), n)
+        if isinstance(op, (ast.Is, ast.IsNot)) and (a is None or b is None or isinstance(a, bool) or isinstance(b, bool)):
+            return ast.copy_location(ast.Constant(same_ if isinstance(op, ast.Is) else not same_), n)
+        return n
+
+    def visit_UnaryOp(self, n):
+        self.generic_visit(n)
+        if isinstance(n.op, ast.Not) and self._c(n.operand):
+            return ast.copy_location(ast.Constant(not n.operand.value), n)
+        return n
+
+    def visit_BoolOp(self, n):
+        self.generic_visit(n)
+        vals = list(n.values)
+        while len(vals) > 1 and self._c(vals[0]):
+            if bool(vals[0].value) == isinstance(n.op, ast.And):
+                vals.pop(0)             # `True and x` is x, `False or x` is x
+            else:
+                return vals[0]          # `False and x` is False, `True or x` is True
+        if len(vals) == 1:
+            return vals[0]
+        n.values = vals
+        return n
+
+    def visit_IfExp(self, n):
+        self.generic_visit(n)
+        if self._c(n.test):
+            return n.body if n.test.value else n.orelse
+        return n
+
+    def visit_If(self, n):
+        self.generic_visit(n)
+        if self._c(n.test):
+            return (n.body if n.test.value else n.orelse) or [ast.copy_location(ast.Pass(), n)]
+        return n
+
+    def visit_JoinedStr(self, n):
+        self.generic_visit(n)
+        out = ''
+        for v in n.values:
+            if self._c(v) and isinstance(v.value, str):
+                out += v.value
+            elif isinstance(v, ast.FormattedValue) and self._c(v.value) and isinstance(v.value.value, str) and v.conversion == -1 \
+                    and v.format_spec is None:
+                out += v.value.value
+            else:
+                return n
+        return ast.copy_location(ast.Constant(out), n)
+
+    def visit_Call(self, n):
+        self.generic_visit(n)
+        if isinstance(n.func, ast.Name) and n.func.id == 'getattr' and len(n.args) == 2 and not n.keywords and self._c(n.args[1]) and \
+                isinstance(n.args[1].value, str) and n.args[1].value.isidentifier():
+            return ast.copy_location(ast.Attribute(value=n.args[0], attr=n.args[1].value, ctx=ast.Load()), n)
+        return n
+
+
+def _selects(fn, p):
+    """parameter `p` of `fn` is only read and says what the function is to do: it is tested (`if` / conditional expression),
+    selects from a display, or names an attribute"""
+    if any(isinstance(x, ast.Name) and x.id == p and not isinstance(x.ctx, ast.Load) for x in ast.walk(fn)) or \
+            any(isinstance(x, (ast.Global, ast.Nonlocal, ast.Match)) for x in ast.walk(fn)):
+        return False
+    has = lambda e: any(isinstance(x, ast.Name) and x.id == p for x in ast.walk(e))
+    for x in ast.walk(fn):
+        if isinstance(x, (ast.If, ast.IfExp)) and has(x.test):
+            return True
+        if isinstance(x, ast.Subscript) and isinstance(x.value, (ast.Dict, ast.Tuple, ast.List)) and has(x.slice):
+            return True
+        if isinstance(x, ast.Subscript) and isinstance(x.value, ast.Call) and call_name(x.value) == 'dict' and has(x.slice):
+            return True
+        if isinstance(x, ast.Call) and isinstance(x.func, ast.Attribute) and x.func.attr == 'get' and isinstance(x.func.value, ast.Dict) \
+                and x.args and has(x.args[0]):
+            return True
+        if isinstance(x, ast.Call) and isinstance(x.func, ast.Name) and x.func.id == 'getattr' and len(x.args) == 2 and has(x.args[1]):
+            return True
+    return False
+
+
+def specialise_selector_calls(prog, m):
+    """A helper of the module that is TOLD BY A CONSTANT what to do (`self._require_axis('time')`, `f(x, upper=True)`: the
+    parameter is tested / selects from a display / names an attribute) is, for the rules, the helper it is for that constant:
+    a copy with the parameter replaced by the constant and the tests on it evaluated (_ConstFold) is registered beside it,
+    and the call is made to call the copy without that argument.  One copy per (helper, constants); repeated while calls
+    with constant arguments appear (a specialised helper that passes its constant on).  Returns the number of calls redirected."""
+    from ..loader import FunctionInfo
+    from ..resolve import resolve_call
+    made, n = {}, 0
+    for _ in range(3):
+        changed = False
+        for fi in list(m.functions.values()):
+            if '<locals>' in fi.qualname:
+                continue
+            for c in [x for x in ast.walk(fi.node) if isinstance(x, ast.Call)]:
+                if not isinstance(c.func, (ast.Name, ast.Attribute)) or any(isinstance(a, ast.Starred) for a in c.args) or \
+                        any(k.arg is None for k in c.keywords):
+                    continue
+                try:
+                    callee = resolve_call(prog, fi, c)
+                except Exception:
+                    callee = None
+                if callee is None or callee.module is not m or callee.node is fi.node or '<locals>' in callee.qualname or \
+                        not isinstance(callee.node, ast.FunctionDef) or callee.node.name.startswith('__'):
+                    continue
+                a = callee.node.args
+                if a.vararg or a.kwarg or a.posonlyargs or any(d not in ('staticmethod',) for d in callee.decorators()):
+                    continue
+                bind = _bind_args(callee, c)
+                if bind is None:
+                    continue
+                ps = [x.arg for x in a.args]
+                dflt = dict(zip(reversed(ps), reversed(a.defaults)))
+                dflt.update({x.arg: d for x, d in zip(a.kwonlyargs, a.kw_defaults) if d is not None})
+                recv = ps[0] if callee.cls is not None and 'staticmethod' not in callee.decorators() and ps else None
+                given = {}
+                for p_ in ps + [x.arg for x in a.kwonlyargs]:
+                    v = bind.get(p_, dflt.get(p_)) if p_ != recv else None
+                    if isinstance(v, ast.Constant) and (isinstance(v.value, (str, bool)) or v.value is None):
+                        given[p_] = v
+                sel = [p_ for p_ in given if _selects(callee.node, p_)]
+                if not sel:
+                    continue
+                key = (callee.qualname, tuple((p_, repr(given[p_].value)) for p_ in sel))
+                if key not in made:
+                    node = tcopy(callee.node)
+                    tag = '__'.join(re.sub(r'\W', '_', str(given[p_].value)) for p_ in sel)
+                    node.name = f'{callee.node.name}__{tag}'
+                    while any(q.split('.')[-1] == node.name for q in m.functions):
+                        node.name += '_'
+                    node.args.defaults = [d for x, d in zip(node.args.args[len(node.args.args) - len(node.args.defaults):], node.args.defaults)
+                                          if x.arg not in sel]
+                    node.args.args = [x for x in node.args.args if x.arg not in sel]
+                    kw = [(x, d) for x, d in zip(node.args.kwonlyargs, node.args.kw_defaults) if x.arg not in sel]
+                    node.args.kwonlyargs, node.args.kw_defaults = [x for x, _ in kw], [d for _, d in kw]
+                    node.body = [_subst_names(st, {p_: given[p_] for p_ in sel}) for st in node.body]
+                    node = _ConstFold().visit(node)
+                    ast.fix_missing_locations(node)
+                    _reparent(node)
+                    node._parent = getattr(callee.node, '_parent', None)
+                    q = callee.qualname.rsplit('.', 1)[0] + '.' + node.name if '.' in callee.qualname else node.name
+                    new = FunctionInfo(qualname=q, node=node, module=m, cls=callee.cls)
+                    m.functions[q] = new
+                    if callee.cls is not None:
+                        callee.cls.methods[node.name] = new
+                    made[key] = new
+                    if os.environ.get('AEIC_VERIF_DEBUG'):
+                        import sys
+                        print(f'c05: {callee.qualname} specialised for {key[1]}:\n{ast.unparse(node)}', file=sys.stderr)
+                new = made[key]
+                # the call: the copy, without the arguments that are now part of it
+                nrecv = 0 if recv is None or not isinstance(c.func, ast.Attribute) else 1
+                pos = ps[nrecv:] if isinstance(c.func, ast.Attribute) or recv is None else ps
+                c.args = [x for x, p_ in zip(c.args, pos) if p_ not in sel]
+                c.keywords = [k for k in c.keywords if k.arg not in sel]
+                if isinstance(c.func, ast.Attribute):
+                    c.func.attr = new.node.name
+                else:
+                    c.func.id = new.node.name
+                n += 1
+                changed = True
+        if not changed:
+            break
+    return n
+
+
+def _subst_names(st, mapping):
+    st = tcopy(st)
+    for x in ast.walk(st):
+        if isinstance(x, ast.Name) and x.id in mapping and isinstance(x.ctx, ast.Load):
+            v = mapping[x.id]
+            x.__class__ = ast.Constant
+            del x.id, x.ctx
+            x.value, x.kind = v.value, None
+    return st
+
+
+def _grid_line_fills(ctx, m, rule):
+    """[(fill record, loop variables {name: iterated value}, index expression, axis attribute, line)] for every write, inside
+    a loop of the horizontal intersection, of `self.grid_<axis>[INDEX]` into a per-axis array"""
+    S = grid_states(ctx)
+    hz = m.func(HZ_FN)
+    for role, name, val, ret in hz_leaves(ctx, m, rule):
+        S.expand(val)
+    out = []
+    for key, F in sorted(S.fills.items()):
+        if F['fi'].node is not hz.node:
+            continue
+        for st in F['steps']:
+            loops, x = {}, st
+            while True:
+                if is_mk(x, FOR):
+                    if isinstance(x.args[0], ast.Name):
+                        loops[x.args[0].id] = x.args[1]
+                    x = x.args[2]
+                elif is_mk(x, IFS):
+                    x = x.args[1]
+                else:
+                    break
+            if not (is_mk(x, SET) and loops):
+                continue
+            v = strip_casts(x.args[1])
+            if isinstance(v, ast.Subscript) and isinstance(v.value, ast.Attribute) and v.value.attr.startswith('grid_') and show(v.value.value) == 'self':
+                out.append((F, loops, v.slice, v.value.attr, getattr(st, 'lineno', F['line'])))
+    return out
+
+
+_BIG = 10 ** 6        # stands for a maximum taken over all segments: at least as large as anything one segment needs
+
+
+class _CellEval:
+    """Exact value, for ONE segment that goes from cell `s` to cell `e` of an axis (cell i lies between grid lines i and
+    i + 1: index = searchsorted − 1), of a closed index expression: integers (a value of that segment / a plain number),
+    vectors along the columns (list / range), truth values.  Leaves: the per-point cell indices of the axis
+    (`searchsorted(axis, coordinates) − 1`: `[:-1]` is s, `[1:]` is e), the loop variable = the index change e − s.
+    Selections of rows (masks, np.newaxis, full slices) leave the segment's value alone; a mask that evaluates must select
+    the segment.  Anything else raises _NoVal."""
+
+    def __init__(self, s_, e_, loopvars):
+        self.s, self.e, self.loopvars = s_, e_, loopvars
+
+    def ev(self, x):
+        lk = parse_lookup(x)
+        if lk is not None and lk['minus'] == 1 and not lk['sorter'] and isinstance(x, (ast.BinOp, ast.Subscript, ast.Call)):
+            tr = [t.replace(' ', '') for t in lk['trail']]
+            if tr == [':-1']:
+                return self.s
+            if tr == ['1:']:
+                return self.e
+            if not tr:
+                return ('points',)
+        if isinstance(x, ast.Constant):
+            if isinstance(x.value, bool) or isinstance(x.value, int):
+                return x.value
+            raise _NoVal(f'constant {x.value!r}')
+        if isinstance(x, ast.Name):
+            if x.id in self.loopvars:
+                return self.e - self.s
+            raise _NoVal(f'`{x.id}` is not a value of one segment')
+        if isinstance(x, ast.UnaryOp):
+            v = self.ev(x.operand)
+            if isinstance(x.op, ast.USub):
+                return self._map(lambda a: -a, v)
+            if isinstance(x.op, ast.UAdd):
+                return v
+            if isinstance(x.op, (ast.Not, ast.Invert)) and isinstance(v, bool):
+                return not v
+            raise _NoVal('unary operator')
+        if isinstance(x, ast.BinOp):
+            ops = {ast.Add: lambda a, b: a + b, ast.Sub: lambda a, b: a - b, ast.Mult: lambda a, b: a * b}
+            if type(x.op) not in ops:
+                raise _NoVal(f'operator {type(x.op).__name__}')
+            return self._zip(ops[type(x.op)], self.ev(x.left), self.ev(x.right))
+        if isinstance(x, ast.Compare) and len(x.ops) == 1:
+            a, b = self.ev(x.left), self.ev(x.comparators[0])
+            ops = {ast.Eq: lambda a, b: a == b, ast.NotEq: lambda a, b: a != b, ast.Lt: lambda a, b: a < b, ast.LtE: lambda a, b: a <= b,
+                   ast.Gt: lambda a, b: a > b, ast.GtE: lambda a, b: a >= b}
+            if type(x.ops[0]) not in ops or not (self._int(a) and self._int(b)):
+                raise _NoVal('comparison')
+            return ops[type(x.ops[0])](a, b)
+        if isinstance(x, ast.IfExp):
+            t = self.ev(x.test)
+            if not isinstance(t, bool):
+                raise _NoVal('condition that is not a truth value')
+            return self.ev(x.body if t else x.orelse)
+        if isinstance(x, ast.Attribute) and x.attr == 'T':
+            return self.ev(x.value)
+        if isinstance(x, ast.Subscript):
+            return self.sub(self.ev(x.value), x.slice)
+        if isinstance(x, ast.Call):
+            return self.call(x)
+        raise _NoVal(f'`{show(x, 40)}` ({type(x).__name__})')
+
+    @staticmethod
+    def _int(v):
+        return isinstance(v, int) and not isinstance(v, bool)
+
+    @staticmethod
+    def _vec(v):
+        return isinstance(v, (list, range))
+
+    def _map(self, f, v):
+        if self._int(v):
+            return f(v)
+        if self._vec(v):
+            if len(v) > 64:
+                raise _NoVal('arithmetic on a vector whose length is a maximum over all segments')
+            return [f(a) for a in v]
+        raise _NoVal('arithmetic on a value that is not a number')
+
+    def _zip(self, f, a, b):
+        if self._vec(a) and self._vec(b):
+            if len(a) != len(b) or len(a) > 64:
+                raise _NoVal('vectors of different lengths')
+            return [f(p, q) for p, q in zip(a, b)]
+        if self._vec(a):
+            return self._map(lambda p: f(p, b), a) if self._int(b) else self._map(None, b)
+        if self._vec(b):
+            return self._map(lambda q: f(a, q), b) if self._int(a) else self._map(None, a)
+        if self._int(a) and self._int(b):
+            return f(a, b)
+        raise _NoVal('arithmetic on a value that is not a number')
+
+    def sub(self, v, idx):
+        parts = idx.elts if isinstance(idx, ast.Tuple) else [idx]
+        is_new = lambda p: (isinstance(p, ast.Constant) and p.value is None) or norm(p) in ('np.newaxis', 'numpy.newaxis')
+        is_full = lambda p: isinstance(p, ast.Slice) and p.lower is None and p.upper is None and p.step is None
+        if isinstance(v, tuple) and v[0] == 'points':
+            if len(parts) == 1 and isinstance(parts[0], ast.Slice) and parts[0].step is None:
+                lo, hi = parts[0].lower, parts[0].upper
+                if lo is None and hi is not None and const_value(hi) == -1:
+                    return self.s
+                if hi is None and lo is not None and const_value(lo) == 1:
+                    return self.e
+            raise _NoVal(f'`[{show(idx, 30)}]` of the per-point cell indices')
+        if isinstance(v, tuple) and v[0] == 'cols':
+            real = [p for p in parts if not is_new(p)]
+            if len(real) == 2 and is_full(real[0]) and isinstance(const_value(real[1]), int) and -len(v[1]) <= const_value(real[1]) < len(v[1]):
+                return v[1][const_value(real[1])]
+            if len(real) == 1 and not isinstance(real[0], ast.Slice) and not isinstance(real[0], ast.Constant):
+                self.row_selected(real[0])
+                return v
+            raise _NoVal(f'`[{show(idx, 30)}]` of per-segment columns')
+        if self._int(v):
+            for p in parts:
+                if not (is_new(p) or is_full(p)):
+                    self.row_selected(p)
+            return v
+        if self._vec(v):
+            real = [p for p in parts if not (is_new(p) or is_full(p))]
+            if not real:
+                return v
+            if len(real) == 1 and isinstance(real[0], ast.Slice):
+                b = [None if q is None else self.ev(q) for q in (real[0].lower, real[0].upper, real[0].step)]
+                if any(q is not None and not self._int(q) for q in b):
+                    raise _NoVal('slice bound that is not a number')
+                return v[slice(*b)]
+            raise _NoVal(f'`[{show(idx, 30)}]` of a vector')
+        raise _NoVal('subscript of a value that is not followed')
+
+    def row_selected(self, p):
+        """a selection of rows: when it evaluates for this segment it must select it"""
+        if isinstance(p, ast.Slice):
+            raise _NoVal('a range of rows')
+        try:
+            t = self.ev(p)
+        except _NoVal:
+            return
+        if t is False:
+            raise _NoVal(f'the rows selected by `{show(p, 50)}` are not those whose index change is the loop variable')
+
+    def call(self, x):
+        nm = call_name(x)
+        short = nm.split('.')[-1]
+        if isinstance(x.func, ast.Attribute) and x.func.attr in ('copy', 'astype', 'flatten', 'ravel') and \
+                not (isinstance(x.func.value, ast.Name) and x.func.value.id in ('np', 'numpy')):
+            return self.ev(x.func.value)
+        args = x.args
+        if nm in ('np.abs', 'np.absolute', 'np.fabs', 'abs') and len(args) == 1:
+            return self._map(abs, self.ev(args[0]))
+        if nm in ('np.negative',) and len(args) == 1:
+            return self._map(lambda a: -a, self.ev(args[0]))
+        if nm in ('np.sign',) and len(args) == 1:
+            return self._map(lambda a: (a > 0) - (a < 0), self.ev(args[0]))
+        if nm in ('int', 'np.asarray', 'np.array', 'np.int64', 'np.intp', 'np.copy', 'np.atleast_1d') and len(args) == 1:
+            return self.ev(args[0])
+        if nm in ('np.arange', 'range') and 1 <= len(args) <= 3 and not any(k.arg != 'dtype' for k in x.keywords):
+            b = [self.ev(a) for a in args]
+            if not all(self._int(q) for q in b):
+                raise _NoVal('np.arange of values that are not numbers')
+            return range(*b)
+        if nm in ('np.max', 'np.amax', 'np.min', 'np.amin', 'max', 'min') and len(args) == 1 and not x.keywords:
+            v = self.ev(args[0])
+            if self._int(v):
+                if short in ('max', 'amax') and v >= 0:
+                    return _BIG             # over all segments: at least this segment's value
+                raise _NoVal('a minimum over all segments')
+            raise _NoVal('maximum / minimum of a vector')
+        if nm in ('np.maximum', 'np.minimum', 'max', 'min') and len(args) == 2:
+            f = max if short in ('maximum', 'max') else min
+            return self._zip(f, self.ev(args[0]), self.ev(args[1]))
+        if nm == 'np.where' and len(args) == 3:
+            t = self.ev(args[0])
+            if not isinstance(t, bool):
+                raise _NoVal('np.where on a condition that is not one truth value per segment')
+            return self.ev(args[1] if t else args[2])
+        if nm in ('np.flip',) and len(args) == 1:
+            v = self.ev(args[0])
+            return v[::-1] if self._vec(v) else v
+        if nm in ('np.column_stack', 'np.stack', 'np.vstack', 'np.array') and len(args) == 1 and isinstance(args[0], (ast.Tuple, ast.List)):
+            ax = kwarg(x, 'axis')
+            if nm == 'np.column_stack' or (nm == 'np.stack' and ax is not None and const_value(ax) in (1, -1)):
+                cols = [self.ev(a) for a in args[0].elts]
+                if all(self._int(c) for c in cols):
+                    return ('cols', cols)
+        raise _NoVal(f'`{show(x, 50)}`')
+
+
+_CELL_SAMPLES = ((5, 7), (7, 4), (4, 5), (5, 4), (6, 3), (2, 5), (4, 4))
+
+
+def rule_lines_crossed(ctx, m):
+    """C05-R13: see the module docstring"""
+    hz = m.func(HZ_FN)
+    pend = Pending(ctx)
+    n = 0
+    ctl = canon(ast.parse('(np.searchsorted(self.grid_latitudes, lats) - 1)[:-1][:, None] + np.arange(np.abs(c))[None, :]', mode='eval').body)
+    try:
+        got = list(_CellEval(5, 7, {'c'}).ev(ctl))
+    except _NoVal:
+        got = None
+    ctx.control('C05-R13', got == [5, 6], 'embedded `start cell + arange(|change|)` evaluates to lines 5, 6 for a segment from cell 5 to cell 7 '
+                '(which crosses lines 6, 7)')
+    for F, loops, idx, attr, line in _grid_line_fills(ctx, m, 'C05-R13'):
+        axis = attr.replace('grid_', '').rstrip('s')
+        what = f'grid lines written to `{F["name"]}`: self.{attr}[{show(idx, 50)}]'
+        verdict = None
+        for s_, e_ in _CELL_SAMPLES:
+            try:
+                v = _CellEval(s_, e_, set(loops)).ev(idx)
+                if _CellEval._int(v):
+                    v = [v]
+                if not _CellEval._vec(v) or len(v) > 64 or any(abs(q) >= _BIG // 2 for q in v):
+                    raise _NoVal('the index does not evaluate to the lines of one segment')
+            except _NoVal as ex:
+                verdict = (None, f'the index of the grid lines is not evaluated for a segment from cell {s_} to cell {e_}: {ex}')
+                break
+            want = list(range(min(s_, e_) + 1, max(s_, e_) + 1))
+            if sorted(v) != want:
+                verdict = (False, f'for a segment that goes from cell {s_} to cell {e_} of the {axis} axis (index change {e_ - s_:+d}) the grid '
+                                  f'lines taken are {list(v)}; the path crosses the lines {want if e_ >= s_ else want[::-1]} (cell i lies between lines i and '
+                                  f'i + 1): a crossing is computed on a line the segment does not cross and a crossed line is left out, so pieces '
+                                  f'are attributed to cells the path does not enter / get the wrong shares')
+                break
+        n += 1
+        pend.put('C05-R13', hz, what, verdict or (True, f'for every sample segment (cell s → cell e) exactly the lines min(s, e) + 1 … max(s, e)'),
+                 line=line)
+    ctx.floor('C05-R13', n, 2, 'loop-filled arrays of crossed grid lines (one per horizontal axis)')
+    pend.flush()
+
+
+def _view_of(e, bare=False):
+    """(local, anchored) when expression `e` certainly shares memory with the array held by `local`: a basic slice of it, also
+    with added axes / `.T` / `.view()` / np.asarray around; `anchored`: every slice starts at a constant position
+    (or the start), so the view taken at one iteration of a loop overlaps the one taken at the next.  None for anything
+    that may be a copy or an element (integer / mask / index-array subscripts, arithmetic, .copy(), reshape)."""
+    anchored, sliced = True, False
+    for _ in range(8):
+        if isinstance(e, ast.Subscript):
+            for p in (e.slice.elts if isinstance(e.slice, ast.Tuple) else [e.slice]):
+                if isinstance(p, ast.Slice):
+                    sliced = True
+                    if (p.lower is not None and not isinstance(const_value(p.lower), int)) or \
+                            (p.step is not None and not isinstance(const_value(p.step), int)):
+                        anchored = False
+                elif not ((isinstance(p, ast.Constant) and (p.value is None or p.value is Ellipsis)) or norm(p) in ('np.newaxis', 'numpy.newaxis')):
+                    return None
+            e = e.value
+        elif isinstance(e, ast.Attribute) and e.attr == 'T':
+            e = e.value
+        elif isinstance(e, ast.Call) and isinstance(e.func, ast.Attribute) and e.func.attr == 'view' and not e.args and not e.keywords:
+            e = e.func.value
+        elif isinstance(e, ast.Call) and call_name(e) in ('np.asarray', 'np.asanyarray', 'numpy.asarray', 'numpy.asanyarray') and \
+                len(e.args) == 1 and not e.keywords:
+            e = e.args[0]
+        else:
+            break
+    # (a bare alias `w = b` that is altered is a running state said as such, like `b op= ..` itself: not judged)
+    return (e.id, anchored) if isinstance(e, ast.Name) and (sliced or bare) and e.id not in ('self', 'np', 'numpy') else None
+
+
+def _makes_array(v):
+    """the value certainly is a numpy array: a call of a numpy function, arithmetic / a method of one"""
+    if isinstance(v, ast.Call):
+        if call_name(v).startswith(('np.', 'numpy.')) and not call_name(v).endswith(('.max', '.min', '.sum', '.any', '.all', '.size', '.ndim',
+                                                                                   '.shape', '.argmax', '.argmin', '.mean', '.isscalar')):
+            return True
+        return isinstance(v.func, ast.Attribute) and v.func.attr in ('astype', 'copy', 'reshape', 'ravel', 'flatten') and _makes_array(v.func.value)
+    if isinstance(v, ast.BinOp):
+        return _makes_array(v.left) or _makes_array(v.right)
+    if isinstance(v, ast.UnaryOp):
+        return _makes_array(v.operand)
+    return False
+
+
+def loop_carried_views(fn):
+    """[(line, alteration stmt, view local or None, view expression, base, line the base is bound at)] - see rule_group_independence;
+    second result: the number of in-place alterations inside loops that were examined"""
+    found, examined = [], 0
+    names = [x for x in walk_no_nested(fn) if isinstance(x, ast.Name)]
+    args = {a.arg: a for a in fn.args.posonlyargs + fn.args.args + fn.args.kwonlyargs}
+    for L in [x for x in walk_no_nested(fn) if isinstance(x, (ast.For, ast.While))]:
+        inside = {id(x) for st in L.body for x in ast.walk(st)} | ({id(x) for x in ast.walk(L.target)} if isinstance(L, ast.For) else set())
+        stmts = [x for st in L.body for x in ast.walk(st) if isinstance(x, ast.stmt)]
+        views = {}
+        for st in stmts:
+            if isinstance(st, ast.Assign) and len(st.targets) == 1 and isinstance(st.targets[0], ast.Name):
+                vb = _view_of(st.value)
+                if vb is not None and vb[0] != st.targets[0].id:
+                    views.setdefault(st.targets[0].id, []).append((st, vb))
+        for st in stmts:
+            # read-modify-write alterations: `t op= ..`, `t[..] op= ..`, `t[..] = f(t)`, `t.sort()`
+            tgt = None
+            if isinstance(st, ast.AugAssign):
+                tgt = st.target
+            elif isinstance(st, ast.Assign) and len(st.targets) == 1 and isinstance(st.targets[0], ast.Subscript):
+                vb = _view_of(st.targets[0])
+                if vb is not None and any(isinstance(x, ast.Name) and x.id == vb[0] for x in ast.walk(st.value)):
+                    tgt = st.targets[0]
+            elif isinstance(st, ast.Expr) and isinstance(st.value, ast.Call) and isinstance(st.value.func, ast.Attribute) and \
+                    st.value.func.attr == 'sort' and isinstance(st.value.func.value, (ast.Name, ast.Subscript)):
+                tgt = st.value.func.value
+            if tgt is None:
+                continue
+            vb = _view_of(tgt, bare=True)
+            if vb is None:
+                continue
+            examined += 1
+            t, anchored = vb
+            if t in views:
+                # through a local that is (re)taken as a view at every iteration
+                binds = views[t]
+                plain = [x for x in names if x.id == t and isinstance(x.ctx, ast.Store) and not isinstance(getattr(x, '_parent', None), ast.AugAssign)]
+                if len(plain) != len(binds) or len({b for _, (b, _) in binds}) != 1 or not all(b_[0].lineno < st.lineno for b_ in binds):
+                    continue
+                base, anchored = binds[0][1][0], anchored and all(a for _, (_, a) in binds)
+                via, vexpr = t, binds[0][0].value
+                read_in_loop = any(x.id == t and isinstance(x.ctx, ast.Load) and id(x) in inside for x in names)
+            elif isinstance(tgt, ast.Subscript):
+                base, via, vexpr = t, None, tgt
+                read_in_loop = any(x.id == t and isinstance(x.ctx, ast.Load) and id(x) in inside and
+                                   not any(x is y for s2 in stmts if isinstance(s2, ast.AugAssign) for y in ast.walk(s2.target)) for x in names)
+            else:
+                continue            # `acc op= ..` on an array bound outside the loop: an accumulator, said as such
+            if not anchored or not read_in_loop:
+                continue
+            bstores = [x for x in names if x.id == base and not isinstance(x.ctx, ast.Load)]
+            if any(id(x) in inside for x in bstores):
+                continue            # rebound inside the loop: a per-iteration array
+            before = [x for x in bstores if x.lineno < L.lineno]
+            if base in args:
+                ann = args[base].annotation
+                is_arr = ann is not None and re.search(r'NDArray|ndarray', norm(ann)) is not None
+                bline = fn.lineno
+            else:
+                defs = [getattr(x, '_parent', None) for x in before]
+                is_arr = bool(defs) and len(defs) == len(bstores) and \
+                    all(isinstance(d, ast.Assign) and len(d.targets) == 1 and d.targets[0] is x and _makes_array(d.value) for d, x in zip(defs, before))
+                bline = before[-1].lineno if before else 0
+            if not is_arr:
+                continue
+            if any(x.id == base and isinstance(x.ctx, ast.Load) and id(x) not in inside for x in names):
+                continue            # read outside the loop: what the loop leaves in it is a result (an accumulator)
+            found.append((st.lineno, st, via, vexpr, base, bline))
+    return found, examined
+
+
+_R12_CONTROL = """
+def f(groups, n):
+    steps = np.arange(n)
+    for k in groups:
+        offs = steps[:k]
+        offs += 1
+        yield k + offs
+"""
+
+
+def rule_group_independence(ctx, m, pre):
+    """C05-R12: see the module docstring.  `pre` = findings per function, taken before generator loops were opened (so that
+    the construct is reported where it is written)."""
+    fn0 = ast.parse(_R12_CONTROL).body[0]
+    _reparent(fn0)
+    ctx.control('C05-R12', len(loop_carried_views(fn0)[0]) == 1, 'embedded `offs = steps[:k]; offs += 1` inside a loop is recognised')
+    for fi, (found, examined) in pre:
+        for line, st, via, vexpr, base, bline in found:
+            what = f'`{via}` is a view of `{base}` (`{norm(vexpr)[:50]}`)' if via else f'`{norm(vexpr)[:50]}` is a part of `{base}`'
+            ctx.ob('C05-R12', fi, f'`{norm(st)[:60]}` inside the loop', False,
+                   f'{what}, an array that is created once before the loop (line {bline}) and used nowhere else, and `{norm(st)[:50]}` alters '
+                   f'it in place at every iteration: the view shares memory with `{base}`, so every iteration starts from the values the '
+                   f'previous ones left behind, not from those `{base}` was created with - what is computed from it for the later groups of '
+                   f'segments (grid lines crossed, crossing points, cells, shares) is wrong.  A per-iteration value needs its own array '
+                   f'(a copy, or a fresh array per iteration)', line=line)
+        if not found and examined:
+            ctx.ob('C05-R12', fi, f'{examined} in-place alteration(s) inside loops', True,
+                   'none alters, through a view retaken at every iteration, an array that lives across the iterations', nontrivial=False)
+
+
+def _generator_shape(g):
+    """(prefix statements, the loop, statements of the loop before the yield, yielded expression, statements of the loop
+    after the yield) of a generator function that is `prefix; for ..: before; yield value; after` - one loop, one yield at the
+    top level of its body, nothing that ends the generator early - else None"""
+    if not isinstance(g, ast.FunctionDef) or g.decorator_list or g.args.vararg or g.args.kwarg or g.args.kwonlyargs or g.args.posonlyargs:
+        return None
+    body = list(g.body)
+    if body and isinstance(body[0], ast.Expr) and isinstance(body[0].value, ast.Constant) and isinstance(body[0].value.value, str):
+        body = body[1:]
+    if body and isinstance(body[-1], ast.Return) and body[-1].value is None:
+        body = body[:-1]
+    if not body or not isinstance(body[-1], ast.For) or body[-1].orelse:
+        return None
+    loop, prefix = body[-1], body[:-1]
+    ys = [x for x in walk_no_nested(g) if isinstance(x, (ast.Yield, ast.YieldFrom))]
+    if len(ys) != 1 or not isinstance(ys[0], ast.Yield) or ys[0].value is None:
+        return None
+    if any(isinstance(x, (ast.Return, ast.Await, ast.Global, ast.Nonlocal, ast.Try, ast.With, ast.While, ast.Delete, ast.Lambda))
+           or (isinstance(x, (ast.FunctionDef, ast.AsyncFunctionDef, ast.ClassDef)) and x is not g) for x in ast.walk(g)):
+        return None
+    at = next((i for i, st in enumerate(loop.body) if isinstance(st, ast.Expr) and st.value is ys[0]), None)
+    if at is None:
+        return None
+    # nothing of the prefix / the loop may leave the loop other than by `continue` before the yield
+    if any(isinstance(x, ast.Break) for st in loop.body for x in ast.walk(st)):
+        return None
+    if any(isinstance(x, ast.Continue) for st in loop.body[at + 1:] for x in ast.walk(st)):
+        return None
+    return prefix, loop, loop.body[:at], ys[0].value, loop.body[at + 1:]
+
+
+def _state_fields(ci, call):
+    """({parameter: argument expression}, {field: expression over the parameters}) when `call` constructs an object of class
+    `ci` that only HOLDS what it is given: `__init__` is nothing but `self.f = <expression of the parameters>` (or the class
+    is a dataclass without __post_init__ / __init__: field = parameter); else None"""
+    if any(isinstance(a, ast.Starred) for a in call.args) or any(k.arg is None for k in call.keywords) or len(ci.mro()) > 1 and \
+            any(b.name != 'object' and b is not ci for b in ci.mro()):
+        return None
+    init = ci.methods.get('__init__')
+    if init is not None:
+        a = init.node.args
+        if a.vararg or a.kwarg or a.posonlyargs or a.kwonlyargs or not a.args:
+            return None
+        ps = [x.arg for x in a.args]
+        me, ps = ps[0], ps[1:]
+        dflt = dict(zip(reversed(ps), reversed(a.defaults)))
+        fields = {}
+        for st in init.node.body:
+            if isinstance(st, ast.Expr) and isinstance(st.value, ast.Constant):
+                continue
+            t, v = (st.targets[0], st.value) if isinstance(st, ast.Assign) and len(st.targets) == 1 else \
+                (st.target, st.value) if isinstance(st, ast.AnnAssign) and st.value is not None else (None, None)
+            if not (isinstance(t, ast.Attribute) and isinstance(t.value, ast.Name) and t.value.id == me) or t.attr in fields or \
+                    any(isinstance(x, ast.Name) and x.id == me for x in ast.walk(v)) or \
+                    any(isinstance(x, (ast.Call, ast.Lambda, ast.NamedExpr, ast.Await, ast.Yield)) for x in ast.walk(v)):
+                return None
+            fields[t.attr] = v
+    else:
+        if not any(norm(d).split('(')[0].endswith('dataclass') for d in ci.node.decorator_list) or '__post_init__' in ci.methods:
+            return None
+        ps = list(ci.annotated_fields())
+        dflt = {k: v for k, v in ci.class_assignments().items() if k in ps and v is not None}
+        fields = {f: ast.Name(id=f, ctx=ast.Load()) for f in ps}
+    if len(call.args) > len(ps):
+        return None
+    bind = dict(zip(ps, call.args))
+    for k in call.keywords:
+        if k.arg in bind or k.arg not in ps:
+            return None
+        bind[k.arg] = k.value
+    for p_ in ps:
+        if p_ not in bind:
+            if p_ not in dflt or not isinstance(dflt[p_], ast.Constant):
+                return None
+            bind[p_] = dflt[p_]
+    return bind, fields
+
+
+def open_generator_loops(m, fn, counter):
+    """`for T in gen(args): BODY` where `gen` is a generator function of the module of the shape `prefix; for v in it: before;
+    yield value; after` (see _generator_shape) is, with the generator's parameters and locals renamed apart,
+
+        params = args; prefix
+        for v in it:
+            before; T = value; BODY; after
+
+    (a generator runs its body interleaved with the consumer's loop body, one `yield` per iteration; `continue` / `break` of
+    BODY are only accepted when nothing follows the yield).  What the rules then read is the loop that is executed, whoever
+    holds its state.  Returns the number of loops opened."""
+    from ..astutil import parent
+    done = 0
+    for _ in range(8):
+        hit = None
+        for loop in [x for x in walk_no_nested(fn) if isinstance(x, ast.For)]:
+            c = loop.iter
+            if loop.orelse or not isinstance(c, ast.Call) or c.keywords and any(k.arg is None for k in c.keywords) or \
+                    any(isinstance(a, ast.Starred) for a in c.args):
+                continue
+            g = None
+            if isinstance(c.func, ast.Name):
+                g = m.functions.get(c.func.id)
+                skip = 0
+            elif isinstance(c.func, ast.Attribute) and isinstance(c.func.value, ast.Name) and c.func.value.id == 'self':
+                cands = [f for q, f in m.functions.items() if q.endswith('.' + c.func.attr) and q.count('.') == 1]
+                g = cands[0] if len(cands) == 1 and 'staticmethod' not in cands[0].decorators() and \
+                    'classmethod' not in cands[0].decorators() else None
+                skip = 1
+            state = None
+            if g is None and isinstance(c.func, ast.Attribute) and isinstance(c.func.value, ast.Call) and \
+                    isinstance(c.func.value.func, ast.Name) and c.func.value.func.id in m.classes:
+                # a method of an object made on the spot that only holds what it is given (the loop's state moved into a class)
+                ci = m.classes[c.func.value.func.id]
+                g = ci.methods.get(c.func.attr)
+                state = _state_fields(ci, c.func.value) if g is not None and not g.decorators() else None
+                skip = 1
+                if state is None or not g.node.args.args:
+                    g = None
+                else:
+                    me = g.node.args.args[0].arg
+                    uses = [x for x in ast.walk(g.node) if isinstance(x, ast.Name) and x.id == me]
+                    if not all(isinstance(getattr(x, '_parent', None), ast.Attribute) and isinstance(x._parent.ctx, ast.Load) and
+                               x._parent.attr in state[1] for x in uses):
+                        g = None            # calls its own methods / writes its fields: not a plain holder of values
+            if g is None or g.node is fn:
+                continue
+            shape = _generator_shape(g.node)
+            if shape is None:
+                continue
+            ps = [a.arg for a in g.node.args.args]
+            dflt = dict(zip(reversed(ps), reversed(g.node.args.defaults)))
+            bind = {}
+            if skip:
+                if not ps:
+                    continue
+                bind[ps[0]] = ast.Name(id='self', ctx=ast.Load())
+            rest = ps[skip:]
+            if len(c.args) > len(rest):
+                continue
+            bind.update(zip(rest, c.args))
+            bad = False
+            for k in c.keywords:
+                if k.arg in bind or k.arg not in rest:
+                    bad = True
+                bind[k.arg] = k.value
+            for p_ in rest:
+                if p_ not in bind:
+                    if p_ in dflt:
+                        bind[p_] = dflt[p_]
+                    else:
+                        bad = True
+            prefix, gl, before, value, after = shape
+            if bad or (after and any(isinstance(x, (ast.Continue, ast.Break)) for st in loop.body for x in ast.walk(st))):
+                continue
+            body = next((b for f in ('body', 'orelse', 'finalbody') for b in [getattr(parent(loop), f, None)]
+                         if isinstance(b, list) and any(s_ is loop for s_ in b)), None)
+            if body is None:
+                continue
+            hit = (loop, g, bind, shape, body, ps, skip, state)
+            break
+        if hit is None:
+            break
+        loop, g, bind, (prefix, gl, before, value, after), body, ps, skip, state = hit
+        counter[0] += 1
+        local = set(ps) | {x.id for x in ast.walk(g.node) if isinstance(x, ast.Name) and not isinstance(x.ctx, ast.Load)}
+        if skip:
+            local.discard(ps[0])
+        taken = {x.id for x in ast.walk(fn) if isinstance(x, ast.Name)} | {a.arg for a in ast.walk(fn) if isinstance(a, ast.arg)}
+        ren = {}
+        for nm in sorted(local):
+            new = f'_g{counter[0]}_{nm.lstrip("_")}'
+            while new in taken:
+                new += '_'
+            ren[nm] = new
+        if skip:
+            ren[ps[0]] = 'self'
+        fren = {}
+        if state is not None:
+            for kind, nm in [('p', x) for x in state[0]] + [('f', x) for x in state[1]]:
+                new = f'_g{counter[0]}_{"arg" if kind == "p" else "held"}_{nm.lstrip("_")}'
+                while new in taken or new in ren.values():
+                    new += '_'
+                fren[(kind, nm)] = new
+
+        def moved(st):
+            st = tcopy(st)
+            if state is not None:
+                class F(ast.NodeTransformer):
+                    def visit_Attribute(self, n):
+                        if isinstance(n.value, ast.Name) and n.value.id == ps[0] and ('f', n.attr) in fren:
+                            return ast.Name(id=fren[('f', n.attr)], ctx=ast.Load())
+                        return self.generic_visit(n)
+                st = F().visit(st)
+            for x in ast.walk(st):
+                if isinstance(x, ast.Name) and x.id in ren:
+                    x.id = ren[x.id]
+                if hasattr(x, 'lineno') or isinstance(x, (ast.stmt, ast.expr)):
+                    ast.copy_location(x, loop)
+            return st
+
+        def assign(target, val):
+            a = ast.Assign(targets=[target], value=val, type_comment=None)
+            for x in ast.walk(a):
+                if isinstance(x, (ast.stmt, ast.expr)) and not hasattr(x, 'lineno'):
+                    ast.copy_location(x, loop)
+            return ast.copy_location(a, loop)
+
+        new = []
+        if state is not None:
+            for p_, a_ in state[0].items():
+                new.append(assign(ast.Name(id=fren[('p', p_)], ctx=ast.Store()), tcopy(a_)))
+            for f_, v_ in state[1].items():
+                v_ = tcopy(v_)
+                for x in ast.walk(v_):
+                    if isinstance(x, ast.Name) and ('p', x.id) in fren:
+                        x.id = fren[('p', x.id)]
+                new.append(assign(ast.Name(id=fren[('f', f_)], ctx=ast.Store()), v_))
+        for p_ in ps[skip:]:
+            new.append(assign(ast.Name(id=ren[p_], ctx=ast.Store()), tcopy(bind[p_])))
+        new += [moved(st) for st in prefix]
+        val = moved(ast.Expr(value=value)).value
+        tg = loop.target
+        inner = [moved(st) for st in before]
+        if isinstance(tg, (ast.Tuple, ast.List)) and isinstance(val, ast.Tuple) and len(tg.elts) == len(val.elts) and \
+                all(isinstance(t, ast.Name) for t in tg.elts) and not any(isinstance(e, ast.Starred) for e in val.elts) and \
+                not ({t.id for t in tg.elts} & {x.id for x in ast.walk(val) if isinstance(x, ast.Name)}):
+            inner += [assign(t, e) for t, e in zip(tg.elts, val.elts)]
+        else:
+            inner.append(assign(tg, val))
+        inner += loop.body + [moved(st) for st in after]
+        merged = ast.For(target=moved(ast.Expr(value=gl.target)).value, iter=moved(ast.Expr(value=gl.iter)).value, body=inner, orelse=[],
+                         type_comment=None)
+        for x in ast.walk(merged.target):
+            if isinstance(x, (ast.Name, ast.Tuple, ast.List, ast.Starred)):
+                x.ctx = ast.Store()
+        ast.copy_location(merged, loop)
+        i = next(i for i, s_ in enumerate(body) if s_ is loop)
+        body[i:i + 1] = new + [merged]
+        _reparent(fn)
+        done += 1
+    if done and os.environ.get('AEIC_VERIF_DEBUG'):
+        import sys
+        print(f'c05: {done} generator loop(s) opened in {fn.name}:\n{ast.unparse(fn)}', file=sys.stderr)
+    return done
+
+
 class GridValues(Values):
     """c04.Values with the precision of reaching definitions where a local is bound to (a view of) another local:
     `a = b` followed by an alteration of `b` leaves `a` opaque only when that alteration can meet the object `a` was bound
@@ -2648,6 +3586,15 @@ class GridValues(Values):
 def run(ctx):
     prog = ctx.prog
     m = prog.module(GRID)
+    specialise_selector_calls(prog, m)
+    from ..resolve import closure
+    on_path = [fi for fi in closure(prog, [m.func(q) for q in ENTRY_POINTS if q in m.functions])
+               if fi.file == m.relpath and '<locals>' not in fi.qualname and isinstance(fi.node, ast.FunctionDef)]
+    carried = [(fi, loop_carried_views(fi.node)) for fi in sorted(on_path, key=lambda f: f.node.lineno)]
+    opened = [0]
+    for fi in m.functions.values():
+        if '<locals>' not in fi.qualname:
+            open_generator_loops(m, fi.node, opened)
     for fi in m.functions.values():
         if '<locals>' not in fi.qualname:
             split_tuple_locals(fi.node)
@@ -2663,6 +3610,7 @@ def run(ctx):
 
     from .c04 import rule_forwarding
     run_rules(ctx, 'C05', [
+        lambda: rule_group_independence(ctx, m, carried),  # R12
         lambda: rule_outputs(ctx, m),                      # R1, R2, R4
         lambda: rule_result_roles(ctx, m, fn),             # R2
         split_points,                                      # R1
@@ -2670,6 +3618,7 @@ def run(ctx):
         lambda: rule_mirror(ctx, m),                       # R6
         lambda: rule_guards(ctx, m),                       # R7
         lambda: rule_on_line(ctx, m),                      # R11
+        lambda: rule_lines_crossed(ctx, m),                # R13
         lambda: rule_axes(ctx, m),                         # R3
         lambda: rule_lookup(ctx, m, 'C05-R8'),
         lambda: rule_forwarding(ctx, m, 'C05-R9', ('lats', 'lons', 'altitudes', 'times', 'state_variables', 'integrated_variables'),
